@@ -69,6 +69,23 @@ def run_enum_jobs(scratch, prog, jobs, san=False, tag=""):
     return lines, text, []
 
 
+def crash_key(rc, stderr, progname):
+    """Stable key for a driver that did not finish: what kind of event stopped it and where."""
+    import re
+    se = stderr or ""
+    m = re.search(r"AddressSanitizer: ([a-zA-Z-]+)", se)
+    if m:
+        fn = re.search(r"#\d+ 0x[0-9a-f]+ in ([A-Za-z_:~<>]+?)[(<\s]", se)
+        return "asan:%s@%s" % (m.group(1), (fn.group(1) if fn else "?")[:80])
+    m = re.search(r"([^\s:]+\.h):\d+:\d+: runtime error: ([a-z -]+)", se)
+    if m:
+        return "ubsan:%s@%s" % (m.group(2).strip().replace(" ", "-")[:50], m.group(1).split("/")[-1])
+    m = re.search(r"([A-Za-z_./]+\.h):\d+: [^\n]*Assertion `([^']{0,60})", se)
+    if m:
+        return "assert:%s@%s" % (re.sub(r"\W+", "-", m.group(2))[:50], m.group(1).split("/")[-1])
+    return "driver-crashed:rc%s:%s" % (rc, progname)
+
+
 def _run(exe, outp):
     e = dict(os.environ)
     e["ASAN_OPTIONS"] = "detect_leaks=0:exitcode=66"
@@ -109,12 +126,12 @@ def validate_traces(scratch, prog, trace_lines, name, timeout=1800):
 import random
 
 
-def harvest(scratch, prog, tier_budget=400):
+def harvest(scratch, prog, tier_budget=400, san=False):
     """Run the enumeration driver with a small budget; return {(t, ps): {"ok": [bufs], "other": [bufs]}}.
     Used only to pick *seed inputs* for behaviours (no verdict is derived here)."""
     from .c01 import jobs_for
     jobs = jobs_for(prog, "quick", tier_budget)
-    lines, text, err = run_enum_jobs(scratch, prog, jobs, tag="_h")
+    lines, text, err = run_enum_jobs(scratch, prog, jobs, tag="_h", san=san)
     if not isinstance(lines, list):
         return None, text, (lines, err)
     out = {}
@@ -267,10 +284,12 @@ def seeds_for(bufs, mode, rng, limit=24):
     return seeds[:limit]
 
 
-def behaviour_traces(scratch, prog, mode, actions, nbeh, depth, seed, tag):
+def behaviour_traces(scratch, prog, mode, actions, nbeh, depth, seed, tag, san=False):
     """harvest -> generate -> replay.  Returns (lines, text, note, structs, gen_results) or (status, text, detail, None, None)."""
-    hv, text, err = harvest(scratch, prog, 300)
+    hv, text, err = harvest(scratch, prog, 300, san=san)
     if hv is None:
+        if isinstance(err, tuple) and err[0] in ("BUILD_FAILED", "RUN_FAILED"):
+            return err[0], text, err[1], None, None
         return None, text, err, None, None
     rng = random.Random(seed * 7919 + len(text))
     structs, traces, gens = [], [], []
@@ -297,7 +316,7 @@ def behaviour_traces(scratch, prog, mode, actions, nbeh, depth, seed, tag):
             traces.append((si, list(ps), h))
     if not traces:
         return [], text, None, structs, gens
-    lines, text, note = replay(scratch, prog, structs, traces, tag + "_" + prog.name)
+    lines, text, note = replay(scratch, prog, structs, traces, tag + "_" + prog.name, san=san)
     return lines, text, note, structs, gens
 
 
